@@ -85,6 +85,9 @@ pub enum Point {
     /// Before/after changing the polling state in `SubmissionQueue::wake`.
     WakeBefore,
     WakeAfter,
+    /// At the head of a loop that decodes records written by the kernel
+    /// (inotify events), `addr` is the decoder's state.
+    DecodeLoop,
 }
 
 /// Function called at each [`Point`], `addr` is the address of the object
